@@ -226,12 +226,90 @@ theorem C07_output (b : Buf) (out raw : Nat) :
     · exact ⟨⟨0, 0, by decide⟩, by decide, by decide⟩
   by_cases hfast : FastInt raw
   · obtain ⟨o, h1, _, _, h4, h5, h6, h7, h8⟩ := C07_integer_path b out raw hfin hz hfast
-    generalize normalize (fastVal raw) 0 = p at h4
-    exact ⟨o, h1, h7, by omega, fun h => absurd h hfin,
-      fun _ => ⟨⟨p.1, p.2, h4⟩, h5, h6⟩⟩
+    cases hp : normalize (fastVal raw) 0 with
+    | mk m e =>
+      rw [hp] at h4
+      exact ⟨o, h1, h7, by omega, fun h => absurd h hfin, fun _ => ⟨⟨m, e, h4⟩, h5, h6⟩⟩
   · obtain ⟨o, d, h1, _, _, _, _, _, _, _, h4, h5, h6, h7, h8⟩ := C07_decimal_path b out raw hfin hz hfast
-    generalize normalize d.sig d.exp = p at h4
-    exact ⟨o, h1, h7, h8, fun h => absurd h hfin,
-      fun _ => ⟨⟨p.1, p.2, h4⟩, h5, h6⟩⟩
+    cases hp : normalize d.sig d.exp with
+    | mk m e =>
+      rw [hp] at h4
+      exact ⟨o, h1, h7, h8, fun h => absurd h hfin, fun _ => ⟨⟨m, e, h4⟩, h5, h6⟩⟩
+
+
+/-! ## non-vacuity: concrete doubles through every path, by kernel evaluation -/
+
+/-- the text the model produces for a bit pattern (start index 0, zero-filled buffer) -/
+def textOf (bits : Nat) : Option (List Nat) :=
+  (f64toa zeroBuf 0 bits).map (fun o => slice o.st.buf 0 o.ret)
+
+-- 0.1, 1e21, 5e-324 (smallest subnormal), DBL_MAX, 123456.0 (fast path), 0.3, -1.5e-7
+example : textOf 4591870180066957722 = some [48, 46, 49] := by decide +kernel                      -- "0.1"
+example : textOf 4921056587992461136 = some [49, 101, 43, 50, 49] := by decide +kernel             -- "1e+21"
+example : textOf 1 = some [53, 101, 45, 51, 50, 52] := by decide +kernel                           -- "5e-324"
+example : textOf 9218868437227405311 =
+    some [49, 46, 55, 57, 55, 54, 57, 51, 49, 51, 52, 56, 54, 50, 51, 49, 53, 55, 101, 43, 51, 48, 56] := by
+  decide +kernel                                                                 -- "1.7976931348623157e+308"
+example : textOf 4683220244930494464 = some [49, 50, 51, 52, 53, 54, 46, 48] := by decide +kernel  -- "123456.0"
+example : textOf 4599075939470750515 = some [48, 46, 51] := by decide +kernel                      -- "0.3"
+example : textOf 13728134904377344886 = some [45, 49, 46, 53, 101, 45, 55] := by decide +kernel    -- "-1.5e-7"
+example : textOf 0 = some [48, 46, 48] ∧ textOf (2 ^ 63) = some [45, 48, 46, 48] := by decide +kernel
+example : (f64toa zeroBuf 0 0x7FF0000000000000).map (·.ret) = some 0 := by decide +kernel          -- +inf
+
+-- the certificate holds on them (`(c, q)` of the bit pattern, `(sig, exp)` read from the text) …
+example : cqOfBits 4591870180066957722 = (7205759403792794, -56) ∧ ValidCQ 7205759403792794 (-56) ∧
+    chk 7205759403792794 (-56) 1 (-1) = true := by decide +kernel
+example : chk 7629394531250000 17 1 21 = true := by decide +kernel                  -- 1e21
+example : ValidCQ 1 (-1074) ∧ chk 1 (-1074) 5 (-324) = true := by decide +kernel    -- 5e-324
+example : ValidCQ 9007199254740991 971 ∧ chk 9007199254740991 971 17976931348623157 292 = true := by
+  decide +kernel                                                                    -- DBL_MAX
+example : chk 8483831719919616 (-36) 123456 0 = true := by decide +kernel           -- 123456.0
+example : chk 5404319552844595 (-54) 3 (-1) = true := by decide +kernel             -- 0.3
+example : chk 2 (-1074) 1 (-323) = true := by decide +kernel     -- 1e-323: candidates 8e-324, 9e-324, 1e-323
+-- … and is falsified by a decimal that round-trips but is not the shortest, by one that does not round-trip,
+-- and by the farther of two shortest candidates
+example : inInterval 7205759403792794 (-56) 10000000000000001 (-17) = true ∧
+    chk 7205759403792794 (-56) 10000000000000001 (-17) = false := by decide +kernel
+example : chk 7205759403792794 (-56) 2 (-1) = false := by decide +kernel
+example : inInterval 1 (-1074) 4 (-324) = true ∧ chk 1 (-1074) 4 (-324) = false := by decide +kernel
+
+-- hypotheses of the path theorems are satisfiable
+example : FastInt 4683220244930494464 ∧ fastVal 4683220244930494464 = 123456 := by decide +kernel
+example : ¬ FastInt 4591870180066957722 := by decide +kernel
+example : (format zeroBuf 0 true 15 (-8)).map (fun r => slice r.1.buf 0 r.2) =
+    some [45, 49, 46, 53, 101, 45, 55] := by decide +kernel
+example : normalize 1500 (-10) = (15, -8) := by decide +kernel
+example : parseDecText [45, 49, 46, 53, 101, 45, 55] = some (true, 15, -8) := by decide +kernel
+example : parseDecText [48, 49] = none ∧ parseDecText [49, 46] = none ∧ parseDecText [49, 101] = none := by
+  decide +kernel
+example : pow10CeilSig[292]? = some (2 ^ 63, 0) ∧ pow10CeilSig[0]? = some (0xFF77B1FCBEBCDC4F, 0x25E8E89C13BB0F7B) := by
+  decide +kernel
+
+/-!
+## OPEN
+
+```
+theorem C07_schubfach (bits : Nat) (h : bits < 2 ^ 64) (hfin : bits / 2 ^ 52 % 2 ^ 11 ≠ 2047)
+    (hnz : bits % 2 ^ 63 ≠ 0) (hnf : ¬ FastInt bits) :
+    ∀ d, f64ToDecimal (bits % 2 ^ 52) (bits / 2 ^ 52 % 2 ^ 11) (cqOfBits bits).1 (cqOfBits bits).2 = some d →
+      chk (cqOfBits bits).1 (cqOfBits bits).2 (normalize d.sig d.exp).1 (normalize d.sig d.exp).2 = true
+```
+
+NOT proved: that the decimal chosen by `F64ToDecimal` (Schubfach: `RoundToOdd` estimates of the interval ends
+from the 128-bit table entry, the `R_{k+1}` / `R_k` candidate tests, the closest-of-two rule) always satisfies the
+certificate.  Everything the proof would start from is in place — the table rows are the exact ceilings
+(`C07_tables` (a)), the logarithm formulas are exact (`C07_tables` (b), (c), `C07_exponents`), `RoundToOdd` is
+`⌊cp·g/2^128⌋` or one more (`Proofs.Ftoa.roundToOdd_bounds`) — but the error analysis of Giulietti's paper
+(round-to-odd preserves the comparisons with multiples of 4 / 40) has not been formalised.  Instead the statement
+is **evaluated for every input** of the differential run: the driver line prints `chk=1` iff
+`chk (cqOfBits bits) (parseDecText text) = true` on the digits denoted by the printed text (so it also covers
+the fast path and is independent of the model's internals), and `rt=1` iff the exact reference rounding
+`Spec.Rne.round` of that decimal gives back `bits`.  By `C07_checker_sound` every `chk=1` is a proof, for that
+input, of round trip + minimal length + closest.
+
+Also not proved: the link `RoundTrips c q sig exp → Spec.Rne.round false sig exp = some bits` between the
+rounding interval of this file and the executable reference rounding of `Spec/Rne.lean` (both are written from
+the IEEE-754 definition; they are compared per input by the `rt=` column).
+-/
 
 end Sonic.Props.C07
